@@ -51,6 +51,8 @@ def run(ctx):
             tot["walks"] += r["whole_state_walks"]
             tot["just"] += r["justified_observations"]
             tot["nxt"] += r["next_revision_requests"]
+            tot["jskip"] = tot.get("jskip", 0) + r["justified_observations_not_judged_best_off_finalized"]
+            tot["offfin"] = tot.get("offfin", 0) + r["imports_after_which_best_does_not_descend_from_finalized"]
             tot["api4xx"] += r["api_4xx"]
             tot["skipped"] += r["blocks_delivered"] + r["blocks_packed_between_stream_blocks_and_at_the_end"] - r["blocks_stored"]
             tot["obs"] += r["observations"]
@@ -110,6 +112,8 @@ def run(ctx):
     ctx.cov["whole_state_walks"] = tot["walks"]
     ctx.cov["justified_observations"] = tot["just"]
     ctx.cov["next_revision_requests"] = tot["nxt"]
+    ctx.cov["justified_observations_not_judged_because_best_did_not_descend_from_finalized"] = tot.get("jskip", 0)
+    ctx.cov["imports_after_which_best_does_not_descend_from_finalized"] = tot.get("offfin", 0)
     ctx.cov["api_4xx"] = tot["api4xx"]
     ctx.cov["tails_imported_after_the_query_batch_equal_to_reference"] = tot["tails"]
     ctx.cov["rule"] = ("one evaluation = one observation by a reader goroutine (atomic load of bestSummary or of the finalized checkpoint) "
@@ -123,5 +127,7 @@ def run(ctx):
         "sync/atomic operations and the kv engine's reads/writes are linearizable; stamps from one atomic counter order them",
         "the recording kv engine (memory leveldb under muxdb) stands for the production leveldb: same goleveldb memdb/batch code",
         "fork choice and finality are facts logged by the implementation here; they are decided by C03/C04",
+        "seeded streams may let more than a third of the validators vote COM on two branches; while the node's best block then does "
+        "not descend from its finalized checkpoint the content oracle for justified is not applied (counted in the evidence)",
         "the race detector part is a by-product outside the TLA+ argument: it only sees the schedules that happened",
     ]
